@@ -13,6 +13,13 @@ ANCHORS = [
     ("flag_despawns", "src/shared/replication/update_message_flags.rs", r"const DESPAWNS\s*=\s*(0b[01_]+|\d+)", 2),
     ("flag_removals", "src/shared/replication/update_message_flags.rs", r"const REMOVALS\s*=\s*(0b[01_]+|\d+)", 4),
     ("flag_changes", "src/shared/replication/update_message_flags.rs", r"const CHANGES\s*=\s*(0b[01_]+|\d+)", 8),
+    # integer widths the models hard-wire (pinned by Lib/ParamsPinned lemmas: a change breaks a proof obligation)
+    ("tick_width", "src/shared/replicon_tick.rs", r"pub struct RepliconTick\(u(\d+)\)", 32),
+    ("hist_mask_width", "src/client/confirm_history.rs", r"mask:\s*u(\d+)", 64),
+    ("mt_window_width", "src/client/server_mutate_ticks.rs", r"VecDeque::from\(\[Default::default\(\);\s*u(\d+)::BITS", 64),
+    ("mutate_index_width", "src/shared/replication/mutate_index.rs", r"struct MutateIndex\(.*\bu(\d+)\);", 16),
+    ("default_priority_single", "src/shared/replication/replication_rules.rs", r"const DEFAULT_PRIORITY: usize = (\d+);", 1),
+    ("tcp_size_width", "bevy_replicon_example_backend/src/tcp.rs", r"let message_size: u(\d+) =", 16),
 ]
 
 
